@@ -464,3 +464,83 @@ def j2b(j):
     if isinstance(j, str):
         return j.encode("ascii")
     return bytes.fromhex(j["hex"])
+
+
+# --------------------------------------------------------------------------------------------
+# parsing values printed by TLC (PrintT of tuples of strings / numbers / booleans / nested tuples / sets)
+
+
+def parse_tla(text, pos=0):
+    """Parse one TLA+ value starting at text[pos]; returns (value, next_pos).  Tuples -> list, sets -> list."""
+    n = len(text)
+    while pos < n and text[pos] in " \n\t,":
+        pos += 1
+    if text.startswith("<<", pos):
+        pos += 2
+        out = []
+        while True:
+            while pos < n and text[pos] in " \n\t,":
+                pos += 1
+            if text.startswith(">>", pos):
+                return out, pos + 2
+            v, pos = parse_tla(text, pos)
+            out.append(v)
+    if text[pos] == "{":
+        pos += 1
+        out = []
+        while True:
+            while pos < n and text[pos] in " \n\t,":
+                pos += 1
+            if text[pos] == "}":
+                return out, pos + 1
+            v, pos = parse_tla(text, pos)
+            out.append(v)
+    if text[pos] == '"':
+        j = pos + 1
+        buf = []
+        while text[j] != '"':
+            if text[j] == "\\":
+                j += 1
+            buf.append(text[j])
+            j += 1
+        return "".join(buf), j + 1
+    if text.startswith("TRUE", pos):
+        return True, pos + 4
+    if text.startswith("FALSE", pos):
+        return False, pos + 5
+    if text[pos] == "[":
+        # record [a |-> v, ...]
+        pos += 1
+        rec = {}
+        while True:
+            while pos < n and text[pos] in " \n\t,":
+                pos += 1
+            if text[pos] == "]":
+                return rec, pos + 1
+            j = pos
+            while text[j] not in " |":
+                j += 1
+            key = text[pos:j]
+            pos = text.index("|->", j) + 3
+            v, pos = parse_tla(text, pos)
+            rec[key] = v
+    j = pos
+    if text[j] == "-":
+        j += 1
+    while j < n and text[j].isdigit():
+        j += 1
+    if j < n and text.startswith("..", j):
+        k = j + 2
+        while k < n and text[k].isdigit():
+            k += 1
+        return list(range(int(text[pos:j]), int(text[j + 2:k]) + 1)), k
+    return int(text[pos:j]), j
+
+
+def tla_prints(output, tag):
+    """All values printed as <<"tag", ...>> (possibly spanning lines) in TLC output."""
+    out = []
+    for m in re.finditer(r'<<\s*"%s"' % re.escape(tag), output):
+        v, _ = parse_tla(output, m.start())
+        out.append(v)
+    return out
